@@ -170,6 +170,43 @@ def r_ovf(F, R, cat=None):
                             ok = True
                             why = "stride * min(.., count - 1): bounded by the last accepted element"
                             continue
+                    if p == ("place", b.key, ("arg", 2), ()) and s[0] == "phi" and len(s[1]) > 1 and all(
+                            x[0] == "place" and x[2] == ("arg", 1) and x[3] for x in s[1]):
+                        # one multiplication shared by several variants (an or-pattern arm
+                        # `Striding(stride, _) | Saturated(stride, _, _) => stride * index`): each
+                        # variant's way into the block is judged on its own
+                        vnames = [v["name"] for v in F.adts[STRIDE]["variants"]] if STRIDE in F.adts else []
+                        self_p = ("place", b.key, ("arg", 1), ())
+                        all_ok = True
+                        for alt in s[1]:
+                            variant = tuple(alt[3][:-1])
+                            cnt = counts.get(variant)
+                            if cnt is None or variant in len_is_count:
+                                continue
+                            # blocks through which this variant reaches the multiplication
+                            seen, stack, ends = set(), [bi], []
+                            while stack:
+                                x = stack.pop()
+                                if x in seen:
+                                    continue
+                                seen.add(x)
+                                vf = [f[2] for f in facts_at(ctx, x) if f[0] == "variant" and f[1] == self_p and isinstance(f[2], str)]
+                                if vf:
+                                    ends.append((x, vf[0]))
+                                else:
+                                    stack.extend(b.preds(x))
+                            for (x, vi) in ends:
+                                if not (vi.isdigit() and int(vi) < len(vnames) and ("v:" + vnames[int(vi)],) == variant[-1:]):
+                                    continue
+                                if not any((f[0] == "Lt" and f[1] == p and f[2][0] == "place" and tuple(f[2][3]) == cnt) or
+                                           (f[0] == "Gt" and f[2] == p and f[1][0] == "place" and tuple(f[1][3]) == cnt)
+                                           for f in facts_at(ctx, x)):
+                                    all_ok = False
+                        ok = all_ok
+                        why = ("stride * position shared by several variants; the variant with a repeated tail reaches it only under position < count"
+                               if ok else "stride * position shared by several variants: the variant whose len() exceeds its count "
+                               "reaches it without position < count (panics in overflow-checked builds, wraps otherwise)")
+                        continue
                     if p == ("place", b.key, ("arg", 2), ()) and s[0] == "place" and s[2] == ("arg", 1):
                         variant = tuple(s[3][:-1])
                         cnt = counts.get(variant)
@@ -454,6 +491,37 @@ def r_concat(F, R, cat=None):
                         detail="dominating fact i >= %s.len()" % first if ge else
                         "no dominating fact i >= %s.len(): a position that lies in %s would be looked up in %s "
                         "(at i - %s.len(), which underflows)" % (first, first, second, first))
+            elif recv[0] == "place" and recv[2] == ("arg", 1) and len(recv[3]) == 2 and recv[3][0] == "f:" + second:
+                # the second level is itself a two-level container and index() resolves the
+                # position in one of its levels directly: position = i - (lengths of all levels
+                # that come before it in the flattened order)
+                fty = next((f["ty"]["s"] for f in F.adts[adt]["variants"][0]["fields"] if f["name"] == second), "")
+                nested = next(((a2, f2, s2) for (a2, f2, s2, _) in tl if a2 != adt and a2.split("::")[-1] in fty), None)
+                leaf = recv[3][1][2:]
+                if nested is None or leaf not in (nested[1], nested[2]):
+                    R.undecided_site("R-CONCAT", ib.label(), "index() reaches into %s.%s, which is not a level of a known two-level container" % (second, leaf))
+                    continue
+                before = [("f:" + first,)]
+                if leaf == nested[2]:
+                    before.append(("f:" + second, "f:" + nested[1]))
+                d = nlin(pos)
+                terms = {k: v for k, v in d.items() if k != param}
+                matched = set()
+                ok = d.get(param) == 1 and d.get(1, 0) == 0
+                for k, v in terms.items():
+                    if k == 1:
+                        continue
+                    hit = next((pth for pth in before if isinstance(k, tuple) and
+                                is_len_of(nobb_(k), ("place", ib.key, ("arg", 1), pth))), None)
+                    if hit is None or v != -1 or hit in matched:
+                        ok = False
+                    else:
+                        matched.add(hit)
+                ok = ok and matched == set(before)
+                R.check("R-CONCAT", ib.label(), ok,
+                        construct="%s.%s.index(i - lengths of the levels before it)" % (second, leaf),
+                        where="%s:%s" % (ib.file, t["line"]),
+                        detail="position %s; levels before it: %s" % (show(pos), [".".join(x[2:] for x in pth) for pth in before]))
         # len = len(first) + len(second)
         for b in [x for x in F.bodies.values() if x.self_adt == adt and x.name == "len"
                   and not x.in_tests()]:
@@ -666,6 +734,37 @@ def check_iter_others(F, R, iter_adt, mapping, first, second):
             continue
         ctxs = all_ctxs(F, b)
         top = ctxs[0]
+        if b.name in ("last", "next_back") and b.trait in ("Iterator", "DoubleEndedIterator"):
+            # read from the back: the answer is the second part's unless that part is empty.
+            # Decided for the `a.or(b)` / `a.or_else(|| b)` shape on positive evidence only.
+            from expr import nobb, apply_fn
+            rt = nobb(trees(top, top.org.local(0)))
+            if rt[0] == "call" and rt[1] in (("Option", "or"), ("Option", "or_else")) and len(rt[2]) == 2 and not rt[3]:
+                pref = rt[2][0]
+                fall = rt[2][1]
+                if rt[1][1] == "or_else":
+                    alts = apply_fn(F, fall, [])
+                    fall = ("phi", tuple(sorted((nobb(x) for x in alts), key=repr)))
+
+                def parts_in(t):
+                    out = set()
+                    for nd in walk(t):
+                        if nd and nd[0] == "place" and nd[2] == ("arg", 1) and nd[3]:
+                            if nd[3][0] == "f:" + ffield:
+                                out.add("first")
+                            if nd[3][0] == "f:" + sfield:
+                                out.add("second")
+                    return out
+                pp, fp = parts_in(pref), parts_in(fall)
+                if pp and fp and len(pp) == 1 and len(fp) == 1:
+                    R.saw(b)
+                    R.check("R-ITER", b.label(), pp == {"second"} and fp == {"first"},
+                            construct="%s() answers from %s unless it is empty" % (b.name, second), where=b.where(),
+                            detail="preferred answer from the %s part (%s), fallback from the %s part" % (
+                                next(iter(pp)), mapping[ffield] if pp == {"first"} else mapping[sfield], next(iter(fp))) +
+                            ("" if pp == {"second"} else ": elements of %s come after those of %s, so the last "
+                             "element is %s's whenever that part is not empty" % (second, first, second)))
+                    continue
 
         def part_of(ctx, op):
             """'first' / 'second' / None: which part an operand is rooted in, when handed over
@@ -838,6 +937,35 @@ def r_stride_iter(F, R, cat=None):
             R.check("R-ITER", b.label(), ok, construct="size_hint = len - cursor", where=b.where(),
                     detail="lower bound %s" % show(low)[:100] + ("" if ok else
                            ": the remaining length is the stride's length minus the cursor"))
+    # overrides that enumerate positions themselves (fold, nth, count, last ... taking the stride
+    # apart): every range of positions or repetitions they walk depends on the cursor -- a range
+    # that does not mention it, under no branch on it, ignores what next() already handed out
+    from core import all_ctxs
+    from r_bracket import walk as _walk
+    for b in [x for x in F.bodies.values() if x.self_adt == "impls::index::StrideIter" and x.kind == "AssocFn" and
+              x.trait in ("Iterator", "DoubleEndedIterator", "ExactSizeIterator") and
+              x.name not in ("next", "size_hint") and not x.in_tests() and not x.derived]:
+        top = Ctx(b)
+        idx_place = ("place", b.key, ("arg", 1), ("f:index",))
+        for c in all_ctxs(F, b):
+            for bi in sorted(c.body.live_blocks()):
+                for si, st in enumerate(c.body.blocks[bi]["stmts"]):
+                    if not (st["k"] == "assign" and st["rv"]["k"] == "aggregate" and st["rv"].get("agg") == "adt" and
+                            (st["rv"].get("adt") or "").endswith("ops::Range")):
+                        continue
+                    rng = nobb_(trees(c, c.org.rvalue(st["rv"], bi, si)))
+                    mentions = any(nd == idx_place for nd in _walk(rng))
+                    guarded = any(any(nd == idx_place for x in f[1:3] if isinstance(x, tuple) for nd in _walk(nobb_(x)))
+                                  for f in facts_at(c, bi))
+                    R.saw(b)
+                    if mentions or guarded:
+                        R.check("R-ITER", b.label(), True, construct="positions walked by %s() depend on the cursor" % b.name,
+                                where="%s:%s" % (c.body.file, st["line"]), detail="range %s" % show(rng)[:80])
+                    else:
+                        R.check("R-ITER", b.label(), False, construct="positions walked by %s() depend on the cursor" % b.name,
+                                where="%s:%s" % (c.body.file, st["line"]),
+                                detail="the range %s neither mentions the cursor nor sits under a branch on it: elements "
+                                       "that next() already yielded are yielded again" % show(rng)[:80])
     ib = [b for b in F.bodies.values() if b.self_adt == STRIDE and b.name == "iter" and b.trait is None]
     for b in ib:
         R.saw(b)
@@ -852,3 +980,151 @@ def r_stride_iter(F, R, cat=None):
                 ok = byname.get("strided") == ("place", b.key, ("arg", 1), ()) and byname.get("index") == ("const", "0")
         R.check("R-ITER", b.label(), ok, construct="iter() = StrideIter{strided: *self, index: 0}",
                 where=b.where(), detail="")
+
+
+# ---------------------------------------------------------------------------------------------
+# R-LEN-STEP: an accepted Stride::push grows Stride::len by exactly one
+
+
+def _subst(t, fn):
+    r = fn(t)
+    if r is not None:
+        return r
+    if isinstance(t, tuple):
+        return tuple(_subst(x, fn) if isinstance(x, tuple) else x for x in t)
+    return t
+
+
+def r_len_step(F, R):
+    """Stride is a little state machine whose length is a function of its state (Stride::len:
+    a linear form per variant).  Every state write of Stride::push -- a whole-state assignment
+    `*self = Variant(..)` or an in-place field update -- is evaluated in that linear domain: the
+    length of the written state must be the length of the state the write is dominated by, plus
+    one.  (Positions in the containers built on Stride are `i - strided.len()`: a transition that
+    grows len by two shifts every later element.)  Shapes the domain cannot express (a state
+    produced by a call, two writes on one path, an unknown source variant) are undecided."""
+    from fractions import Fraction
+    b = stride_push(F)
+    lens = [x for x in F.inherent_methods("impls::index::Stride", "len")]
+    if b is None or not lens or "impls::index::Stride" not in F.adts:
+        R.floor("R-LEN-STEP", "Stride::push / Stride::len", 0, 1)
+        return
+    lb = lens[0]
+    lc = Ctx(lb)
+    R.saw(b)
+    R.saw(lb)
+    variants = [v["name"] for v in F.adts["impls::index::Stride"]["variants"]]
+    self_l = ("place", lb.key, ("arg", 1), ())
+    formula = {}  # variant name -> tree over places of len's self
+    for bi in sorted(lb.live_blocks()):
+        for st in lb.blocks[bi]["stmts"]:
+            if st["k"] == "assign" and st["place"]["l"] == 0 and not st["place"]["p"] and st["rv"]["k"] == "use":
+                vs = [f[2] for f in facts_at(lc, bi) if f[0] == "variant" and f[1] == self_l and isinstance(f[2], str)]
+                if len(vs) == 1 and vs[0].isdigit() and int(vs[0]) < len(variants):
+                    formula[variants[int(vs[0])]] = operand_tree(lc, st["rv"]["op"])
+    if set(formula) != set(variants):
+        R.undecided_site("R-LEN-STEP", lb.label(), "Stride::len is not one linear form per variant (found %s)" % sorted(formula))
+        return
+    ctx = Ctx(b)
+    self_p = ("place", b.key, ("arg", 1), ())
+
+    def len_of(variant, field_vals):
+        """linear form of len in a state of `variant` whose fields are field_vals[i] (default: the
+        current field place of push's self)"""
+        def fn(t):
+            if isinstance(t, tuple) and t and t[0] == "place" and t[1] == lb.key and t[2] == ("arg", 1):
+                pth = t[3]
+                if len(pth) == 2 and pth[0] == "v:" + variant and pth[1].startswith("f:"):
+                    i = int(pth[1][2:])
+                    if i in field_vals:
+                        return field_vals[i]
+                return ("place", b.key, ("arg", 1), pth)
+            return None
+        return lin(_subst(formula[variant], fn))
+
+    writes = []
+    for bi in sorted(b.live_blocks()):
+        for si, st in enumerate(b.blocks[bi]["stmts"]):
+            if st["k"] != "assign" or not any(e["k"] == "deref" for e in st["place"]["p"]):
+                continue
+            tgts = {(r, p) for (r, p) in ctx.org.place(st["place"])}
+            if not any(r == ("arg", 1) for (r, p) in tgts):
+                continue
+            writes.append((bi, si, st, tgts))
+    n = 0
+    for (bi, si, st, tgts) in writes:
+        where = "%s:%s" % (b.file, st["line"])
+        if any(b2 != bi and (b2 in reach_strict(b, bi)) for (b2, _, _, _) in writes) or \
+                sum(1 for w in writes if w[0] == bi) > 1:
+            R.undecided_site("R-LEN-STEP", b.label(), "several state writes on one path (line %s)" % st["line"])
+            continue
+        if len(tgts) != 1 or st["rv"]["k"] != "use":
+            R.undecided_site("R-LEN-STEP", b.label(), "state write at line %s is not a plain value" % st["line"])
+            continue
+        (r, p) = next(iter(tgts))
+        val = operand_tree(ctx, st["rv"]["op"])
+        if p != ():
+            vs = [f[2] for f in facts_at(ctx, bi) if f[0] == "variant" and f[1] == self_p and isinstance(f[2], str)]
+            if len(vs) != 1 or not vs[0].isdigit() or int(vs[0]) >= len(variants):
+                R.undecided_site("R-LEN-STEP", b.label(), "state write at line %s without a known source variant" % st["line"])
+                continue
+            src = variants[int(vs[0])]
+            old = len_of(src, {})
+        if p == ():
+            # the value may be built in several places that join before the single store
+            # (`let next = match *self { .. }; *self = next`): each constructor is evaluated where
+            # it is built, against the source variant that dominates it there
+            origins = list(ctx.org.operand(st["rv"]["op"]))
+            if not origins or not all(o[0][0] == "agg" and not o[1] for o in origins):
+                R.undecided_site("R-LEN-STEP", b.label(), "state written at line %s is not a variant constructor" % st["line"])
+                continue
+            for o in origins:
+                a = tree(ctx, o)
+                if not (a[0] == "agg" and a[1].startswith("Stride::") and a[1].split("::")[1] in formula):
+                    R.undecided_site("R-LEN-STEP", b.label(), "state written at line %s is not a variant constructor" % st["line"])
+                    continue
+                vs2 = [f[2] for f in facts_at(ctx, o[0][1]) if f[0] == "variant" and f[1] == self_p and isinstance(f[2], str)]
+                if len(vs2) != 1 or not vs2[0].isdigit() or int(vs2[0]) >= len(variants):
+                    R.undecided_site("R-LEN-STEP", b.label(), "constructor %s (line %s) without a known source variant" % (a[1], st["line"]))
+                    continue
+                src2 = variants[int(vs2[0])]
+                old2 = len_of(src2, {})
+                new = len_of(a[1].split("::")[1], {i: x for i, x in enumerate(a[2])})
+                d = lin_sub_(new, old2)
+                ok = d == {1: Fraction(1)}
+                n += 1
+                R.check("R-LEN-STEP", b.label(), ok, construct="accepted push grows len by one: %s -> %s" % (src2, ("*self = %s" % show(a))[:60]),
+                        where=where, detail="len before %s, len after %s" % (_showlin(old2), _showlin(new)) +
+                        ("" if ok else ": the state written is not one element longer than the state it replaces; every "
+                                       "position behind it (i - strided.len()) shifts"))
+            continue
+        elif len(p) == 2 and p[0] == "v:" + src and p[1].startswith("f:"):
+            new = len_of(src, {int(p[1][2:]): val})
+            what = "%s.%s = %s" % (src, p[1][2:], show(val))
+        else:
+            R.undecided_site("R-LEN-STEP", b.label(), "state write at line %s targets %s in state %s" % (st["line"], p, src))
+            continue
+        d = lin_sub_(new, old)
+        ok = d == {1: Fraction(1)}
+        n += 1
+        R.check("R-LEN-STEP", b.label(), ok, construct="accepted push grows len by one: %s -> %s" % (src, what[:60]),
+                where=where, detail="len before %s, len after %s" % (_showlin(old), _showlin(new)) +
+                ("" if ok else ": the state written is not one element longer than the state it replaces; every "
+                               "position behind it (i - strided.len()) shifts"))
+    R.floor("R-LEN-STEP", "state writes of Stride::push", len(writes), 1)
+
+
+def lin_sub_(a, b):
+    from expr import lin_sub
+    return lin_sub(a, b)
+
+
+def _showlin(d):
+    parts = []
+    for k, v in d.items():
+        if k == 1:
+            if v != 0:
+                parts.append(str(v))
+        else:
+            parts.append(("%s*" % v if v != 1 else "") + show(k))
+    return " + ".join(parts) or "0"
